@@ -242,6 +242,12 @@ fn uniform_nodes_m(n_cols: usize, height: usize) -> Vec<Felt> {
 }
 
 pub fn forge_vacuous(steps: &[u64], log_n_cosets: u64, n_queries: u64, pow_bits: u8) -> Result<StarkProof, String> {
+    forge_vacuous_mode(steps, log_n_cosets, n_queries, pow_bits, false)
+}
+/// `leave_out = true` (needs blow-up 2): the config is FULLY VALID (declared last-layer bound = trace length / folding, half the last
+/// domain), but the last layer carries `domain - 1` coefficients interpolating the folded (non-polynomial) function on every point of the
+/// last domain except one that no query hits.  Rejected by any verifier that pins the last layer to exactly 2^bound coefficients.
+pub fn forge_vacuous_mode(steps: &[u64], log_n_cosets: u64, n_queries: u64, pow_bits: u8, leave_out: bool) -> Result<StarkProof, String> {
     use swiftness_commitment::{table::config::Config as TC, vector::config::Config as VC};
     let mut pi = swiftness_air::fixtures::public_input::get();
     let n = pi.main_page.0.len();
@@ -249,7 +255,7 @@ pub fn forge_vacuous(steps: &[u64], log_n_cosets: u64, n_queries: u64, pow_bits:
     let log_trace: u64 = to_u64(&swiftness_stark::fixtures::config::get().log_trace_domain_size);
     let log_eval = log_trace + log_n_cosets;
     let sum: u64 = steps.iter().sum();
-    if sum > log_eval || log_eval > 22 { return Err("bad forger parameters".into()); }
+    if sum > log_eval || log_eval > 22 || (leave_out && (log_n_cosets != 1 || sum == log_eval || log_eval - sum > 8)) { return Err("bad forger parameters".into()); }
     let log_last = log_eval - sum;
     let nvf = Felt::from(100u64);
     let tc = |cols: u64, h: u64| TC { n_columns: Felt::from(cols), vector: VC { height: Felt::from(h), n_verifier_friendly_commitment_layers: nvf } };
@@ -262,7 +268,7 @@ pub fn forge_vacuous(steps: &[u64], log_n_cosets: u64, n_queries: u64, pow_bits:
         traces: swiftness_air::trace::config::Config { original: tc(c1 as u64, log_eval), interaction: tc(c2 as u64, log_eval) },
         composition: tc(2, log_eval),
         fri: swiftness_fri::config::Config { log_input_size: Felt::from(log_eval), n_layers: Felt::from(steps.len() as u64 + 1), inner_layers: inner,
-            fri_step_sizes: fss, log_last_layer_degree_bound: Felt::from(log_last) },
+            fri_step_sizes: fss, log_last_layer_degree_bound: Felt::from(if leave_out { log_last - 1 } else { log_last }) },
         proof_of_work: swiftness_pow::config::Config { n_bits: pow_bits },
         log_trace_domain_size: Felt::from(log_trace), n_queries: Felt::from(n_queries), log_n_cosets: Felt::from(log_n_cosets),
         n_verifier_friendly_commitment_layers: nvf,
@@ -320,12 +326,39 @@ pub fn forge_vacuous(steps: &[u64], log_n_cosets: u64, n_queries: u64, pow_bits:
     let mut last = Vec::with_capacity(nl);
     { let mut p = vec![Felt::ONE; nl];
       for _ in 0..nl { let mut acc = Felt::ZERO; for j in 0..nl { acc += layer[j] * p[j]; p[j] *= xinv[j]; } last.push(acc * nl_inv); } }
+    if leave_out {
+        // Lagrange interpolation through every point of the last domain but the first: nl - 1 coefficients
+        let pts: Vec<Felt> = xinv.iter().skip(1).map(|v| v.inverse().unwrap()).collect();
+        let vals: Vec<Felt> = layer.iter().skip(1).cloned().collect();
+        let n1 = pts.len();
+        let mut coef = vec![Felt::ZERO; n1];
+        for a in 0..n1 {
+            // numerator polynomial prod_{b != a} (X - x_b), denominator prod (x_a - x_b)
+            let mut num = vec![Felt::ONE]; let mut den = Felt::ONE;
+            for b in 0..n1 { if b == a { continue; }
+                let mut nxt = vec![Felt::ZERO; num.len() + 1];
+                for (k, c) in num.iter().enumerate() { nxt[k + 1] += *c; nxt[k] -= *c * pts[b]; }
+                num = nxt; den *= pts[a] - pts[b]; }
+            let sc = vals[a] * den.inverse().unwrap();
+            for k in 0..n1 { coef[k] += num[k] * sc; }
+        }
+        last = coef;
+    }
     t.read_felt_vector_from_prover(&last);
     let d = t.digest().to_bytes_be();
-    let mut nonce = 0u64; while verify_pow(d, pow_bits, nonce).is_err() { nonce += 1; }
-    t.read_uint64_from_prover(nonce);
-    let queries = generate_queries(&mut t, cfg.n_queries, domains.eval_domain_size);
-    let mut q: Vec<u64> = queries.iter().map(to_u64).collect(); q.dedup();
+    let (t_dig, t_ctr) = (*t.digest(), *t.counter());
+    let mut nonce = 0u64;
+    let q: Vec<u64> = loop {
+        while verify_pow(d, pow_bits, nonce).is_err() { nonce += 1; }
+        t = Transcript::new_with_counter(t_dig, t_ctr);
+        t.read_uint64_from_prover(nonce);
+        let queries = generate_queries(&mut t, cfg.n_queries, domains.eval_domain_size);
+        let mut q: Vec<u64> = queries.iter().map(to_u64).collect(); q.dedup();
+        // (leave-one-out: no query may fold onto the point that was left out — last-layer index 0; otherwise grind another nonce)
+        if !leave_out || q.iter().all(|x| (x >> sum) != 0) { break q; }
+        nonce += 1;
+        if nonce > (1u64 << 28) { return Err("forger stopped early: no nonce whose queries miss the left-out point".into()); }
+    };
     let nq = q.len();
     let tw = |u: &Vec<Felt>, idx: &[u64]| TW { vector: VW { authentications: uniform_auth(u, hh, idx) } };
     let mut layers = vec![]; let mut cur = q.clone();
@@ -454,7 +487,7 @@ pub fn run(op: &str, a: &[&str]) -> Option<Out> {
             match r { Ok(p) => Out::Ok(crate::ops_proof::fmt_proof(&p)), Err(e) => Out::Err(e) } }
         "forge_vacuous" => {
             let steps: Vec<u64> = if a[0] == "-" { vec![] } else { a[0].split(',').map(u64h).collect() };
-            match forge_vacuous(&steps, u64h(a[1]), u64h(a[2]), u64h(a[3]) as u8) {
+            match forge_vacuous_mode(&steps, u64h(a[1]), u64h(a[2]), u64h(a[3]) as u8, a.len() > 4 && a[4] == "leave-one-out") {
                 Ok(p) => Out::Ok(crate::ops_proof::fmt_proof(&p)), Err(e) => Out::Err(e) } }
         _ => return None,
     })
